@@ -1,38 +1,70 @@
 #!/usr/bin/env python3
-"""Run the registered checks against seeded changes (scratch worktree, never /repo):
+"""Run the rules of every registered check against seeded changes (scratch worktree, never /repo):
 
   seedscan.py [seeded/ID ...]        (default: all)
 
-Writes seeded/<ID>/detect.json: which checks reported which rule instances. A seed counts as caught when the check
-of the property it was written against reports a violation.
+One fact extraction per seed; every property's rule module is evaluated in-process on the patched scratch tree
+(the same code path as `./check <id> --repo <tree>`, which writes no evidence). Reports of the unpatched tree
+(known findings) are not credited to the seed. Writes seeded/<ID>/detect.json.
 """
+import importlib
 import json
 import os
 import re
 import subprocess
 import sys
+import traceback
 
 VERIF = os.path.dirname(os.path.dirname(os.path.dirname(os.path.abspath(__file__))))
+sys.path.insert(0, os.path.join(VERIF, "sa"))
 W = os.environ.get("JAWK_SCRATCH", "/tmp/jawk-mut")
+
+from lib import extract as ex          # noqa: E402
+from lib.ctx import Ctx                # noqa: E402
+from lib.report import Report          # noqa: E402
 
 
 def props():
-    m = json.load(open(os.path.join(VERIF, "MANIFEST.json")))
-    reg = [c["property_id"] for c in m["checks"]]
-    # also rule modules not yet registered
+    out = []
     for f in sorted(os.listdir(os.path.join(VERIF, "sa", "rules"))):
         mm = re.match(r"c(\d\d)\.py$", f)
-        if mm and "C" + mm.group(1) not in reg:
-            reg.append("C" + mm.group(1))
-    return sorted(reg)
+        if mm:
+            out.append("C" + mm.group(1))
+    return out
+
+
+def evaluate(repo, tag):
+    d, sha, dt, cached = ex.extract("dev", repo=repo, tag=tag)
+    ctx = Ctx("dev", d, sha, repo)
+    out = {}
+    for p in props():
+        rep = Report(p, "quick", 0)
+        try:
+            importlib.import_module("rules." + p.lower()).run(ctx, rep)
+            for r in rep.rules:
+                r.finish()
+        except Exception:
+            out[p] = [("INFRA", "internal-error", "internal-error: " + traceback.format_exc()[-400:])]
+            continue
+        bad = []
+        for r in rep.rules:
+            for i in r.instances:
+                if i["verdict"] != "ok":
+                    bad.append((r.id, i["key"], "%s @ %s: %s" % (i["key"], i.get("where", ""),
+                                                                 i["detail"].split("\n")[0][:300])))
+        if bad:
+            out[p] = bad
+    return out
 
 
 def main():
-    seeds = sys.argv[1:] or sorted(os.path.join("seeded", d) for d in os.listdir(os.path.join(VERIF, "seeded")))
+    seeds = sys.argv[1:] or sorted(os.path.join("seeded", d) for d in os.listdir(os.path.join(VERIF, "seeded"))
+                                   if os.path.isdir(os.path.join(VERIF, "seeded", d)))
     if not os.path.isdir(W):
         subprocess.check_call(["git", "-C", "/repo", "worktree", "add", "-q", "--detach", W, "HEAD"])
     head = subprocess.check_output(["git", "-C", "/repo", "rev-parse", "HEAD"], text=True).strip()
-    summary = []
+    base = evaluate(None, "")
+    basekeys = {(p, rid, key) for p, bad in base.items() for rid, key, _ in bad}
     for sd in seeds:
         sd = os.path.join(VERIF, sd) if not os.path.isabs(sd) else sd
         sid = os.path.basename(sd.rstrip("/"))
@@ -42,27 +74,24 @@ def main():
         subprocess.check_call(["cp", "/repo/Cargo.lock", W])
         r = subprocess.run(["git", "apply", os.path.join(sd, "patch.diff")], cwd=W)
         if r.returncode != 0:
-            print(sid, "PATCH-DOES-NOT-APPLY")
+            print(sid, "PATCH-DOES-NOT-APPLY", flush=True)
+            continue
+        try:
+            res = evaluate(W, "-seedscan")
+        except ex.ExtractError as e:
+            print(sid, "EXTRACT-FAILED", str(e)[-200:], flush=True)
             continue
         det = {}
-        for p in props():
-            r = subprocess.run([os.path.join(VERIF, "check"), p, "--repo", W], cwd=VERIF, stdout=subprocess.PIPE,
-                               stderr=subprocess.STDOUT, text=True)
-            hits = []
-            lines = r.stdout.splitlines()
-            for i, l in enumerate(lines):
-                if l.startswith("VIOLATION"):
-                    nxt = lines[i + 1].strip() if i + 1 < len(lines) else ""
-                    hits.append(nxt[:400])
-            if hits or r.returncode != 0:
-                det[p] = hits or ["exit %d without VIOLATION line" % r.returncode]
+        for p, bad in res.items():
+            new = ["%s %s" % (rid, text) for rid, key, text in bad if (p, rid, key) not in basekeys]
+            if new:
+                det[p] = new
         caught = own in det
         json.dump({"seed": sid, "property": own, "caught_by_own_check": caught, "reports": det, "repo_head": head},
                   open(os.path.join(sd, "detect.json"), "w"), indent=1)
-        rules = sorted({h.split(" ")[0] for hs in det.values() for h in hs})
-        print("%-8s %-7s own=%s others=%s rules=%s" % (sid, "CAUGHT" if caught else ("other" if det else "MISSED"),
-                                                   caught, sorted(k for k in det if k != own), rules), flush=True)
-        summary.append((sid, caught, sorted(det)))
+        rules = sorted({h.split(" ")[0] for h in det.get(own, [])})
+        print("%-10s %-7s own-rules=%s others=%s" % (sid, "CAUGHT" if caught else ("other" if det else "MISSED"), rules,
+                                                     sorted(k for k in det if k != own)), flush=True)
     subprocess.check_call("git reset -q --hard && git clean -fdq tests", cwd=W, shell=True)
 
 
